@@ -93,6 +93,11 @@ def cases(wire_cases, tier, seed):
         for b0 in (0x44 if v4 else 0x50, 0x00, 0xF5, 0x70):
             out.append({'type': 'iph', 'bytes': [b0] + x[1:]})
         out.append({'type': 'iph', 'bytes': x + [0xEE] * 5})
+    # every value of the control bytes of each header kind (incl. reserved bits): the same strings the C08 check decodes and re-encodes
+    from . import jobs
+    for c in jobs.control_byte_cases(tier, r):
+        if len(c['bytes']) <= 300 or tier != 'quick':
+            out.append({'type': c['type'], 'bytes': c['bytes']})
     # typed ICMPv4 header: timestamp messages carry 20 bytes
     for t, c0 in ((13, 0), (14, 0), (13, 1), (8, 0), (3, 4), (12, 0), (200, 7)):
         for n in (0, 4, 7, 8, 9, 19, 20, 21, 30):
